@@ -26,13 +26,14 @@ import (
 type outcome struct {
 	accepted bool
 	err      string
+	unusable string // accepted, but the returned value fails the use step (use.go): which requirement
 }
 
 func res(err error) outcome {
 	if err != nil {
-		return outcome{false, err.Error()}
+		return outcome{accepted: false, err: err.Error()}
 	}
-	return outcome{true, ""}
+	return outcome{accepted: true}
 }
 
 // item is a valid encoding for an entry point, built with the repository's
@@ -50,6 +51,7 @@ type target struct {
 	sub    string // signature / Go type / action id
 	binary bool   // takes Bytes(L,A)
 	noByte bool   // excluded from Bytes(L,A) (see rule in evidence)
+	aux    bool   // serves one family only (recursive.go): no generic universe, no input stream
 	run    func(in []byte) outcome
 	corpus []item
 }
@@ -166,12 +168,12 @@ func (c *fakeChannel) SetAuthenticated()                    {}
 
 func (c *fakeChannel) outcome(err error) outcome {
 	if err != nil {
-		return outcome{false, "receive: " + err.Error()}
+		return outcome{accepted: false, err: "receive: " + err.Error()}
 	}
 	if c.errors > 0 {
-		return outcome{false, "error-reply: " + c.lastErr}
+		return outcome{accepted: false, err: "error-reply: " + c.lastErr}
 	}
-	return outcome{true, ""}
+	return outcome{accepted: true}
 }
 
 type nopActor struct{}
@@ -196,12 +198,22 @@ func (fakeDirectory) OnTerminate() {}
 func (fakeDirectory) Service(string) (directory.ServiceInfo, error) {
 	return directory.ServiceInfo{Name: "a"}, nil
 }
-func (fakeDirectory) Services() ([]directory.ServiceInfo, error)            { return nil, nil }
-func (fakeDirectory) RegisterService(directory.ServiceInfo) (uint32, error) { return 2, nil }
-func (fakeDirectory) UnregisterService(uint32) error                        { return nil }
-func (fakeDirectory) ServiceReady(uint32) error                             { return nil }
-func (fakeDirectory) UpdateServiceInfo(directory.ServiceInfo) error         { return nil }
-func (fakeDirectory) MachineId() (string, error)                            { return "m", nil }
+func (fakeDirectory) Services() ([]directory.ServiceInfo, error) { return nil, nil }
+func (fakeDirectory) RegisterService(i directory.ServiceInfo) (uint32, error) {
+	if p := useServiceInfo(&i); p != "" { // the implementor is the consumer of the decoded argument
+		panic("unusable argument: " + p)
+	}
+	return 2, nil
+}
+func (fakeDirectory) UnregisterService(uint32) error { return nil }
+func (fakeDirectory) ServiceReady(uint32) error      { return nil }
+func (fakeDirectory) UpdateServiceInfo(i directory.ServiceInfo) error {
+	if p := useServiceInfo(&i); p != "" {
+		panic("unusable argument: " + p)
+	}
+	return nil
+}
+func (fakeDirectory) MachineId() (string, error) { return "m", nil }
 
 func activation() bus.Activation {
 	return bus.Activation{ServiceID: 1, ObjectID: 1, Terminate: func() {}}
@@ -212,6 +224,26 @@ func receive(a bus.Actor, action uint32, in []byte) outcome {
 	ch := &fakeChannel{cap: bus.CapabilityMap{}}
 	err := a.Receive(&msg, ch)
 	return ch.outcome(err)
+}
+
+// the two IDL entry points, each followed by its use step; the running
+// phase is published so that a case that kills the worker is attributed
+func runParsePackage(in []byte) outcome {
+	phaseHook("ParsePackage")
+	pkg, err := idl.ParsePackage(in)
+	if err != nil {
+		return res(err)
+	}
+	return used(func() string { return usePackage(pkg) })
+}
+
+func runParseIDL(in []byte) outcome {
+	phaseHook("ParseIDL")
+	metas, err := idl.ParseIDL(bytes.NewReader(in))
+	if err != nil {
+		return res(err)
+	}
+	return used(func() string { return useMetaObjects(metas) })
 }
 
 // ------------------------------------------------------------ targets
@@ -356,7 +388,10 @@ func buildTargets() []*target {
 		add(&target{entry: "Message.Read", binary: true, corpus: items("msg", c...),
 			run: func(in []byte) outcome {
 				var m net.Message
-				return res(m.Read(bytes.NewReader(in)))
+				if err := m.Read(bytes.NewReader(in)); err != nil {
+					return res(err)
+				}
+				return used(func() string { return useMessage(&m) })
 			}})
 	}
 	// 2. value.NewValue
@@ -391,8 +426,11 @@ func buildTargets() []*target {
 		c = append(c, item{"val:o#0", ref.b()})
 		add(&target{entry: "value.NewValue", binary: true, corpus: c,
 			run: func(in []byte) outcome {
-				_, err := value.NewValue(bytes.NewReader(in))
-				return res(err)
+				v, err := value.NewValue(bytes.NewReader(in))
+				if err != nil {
+					return res(err)
+				}
+				return used(func() string { return useValue(v, "NewValue-result") })
 			}})
 	}
 	// 3. signature readers
@@ -410,8 +448,11 @@ func buildTargets() []*target {
 			if rerr != nil {
 				return res(rerr)
 			}
-			_, err := rd.Read(bytes.NewReader(in))
-			return res(err)
+			data, err := rd.Read(bytes.NewReader(in))
+			if err != nil {
+				return res(err)
+			}
+			return used(func() string { return useReaderOutput(s.sig, data, len(in)) })
 		}
 		add(t)
 	}
@@ -424,8 +465,11 @@ func buildTargets() []*target {
 				if rd == nil {
 					rd, _ = signature.MakeReader(signature.MetaObjectSignature)
 				}
-				_, err := rd.Read(bytes.NewReader(in))
-				return res(err)
+				data, err := rd.Read(bytes.NewReader(in))
+				if err != nil {
+					return res(err)
+				}
+				return used(func() string { return useReaderOutput(signature.MetaObjectSignature, data, len(in)) })
 			}})
 	}
 	// 4. meta objects and object references
@@ -440,8 +484,11 @@ func buildTargets() []*target {
 		}
 		add(&target{entry: "ReadMetaObject", binary: true, corpus: items("meta", c...),
 			run: func(in []byte) outcome {
-				_, err := object.ReadMetaObject(bytes.NewReader(in))
-				return res(err)
+				m, err := object.ReadMetaObject(bytes.NewReader(in))
+				if err != nil {
+					return res(err)
+				}
+				return used(func() string { return useMetaObject(&m, "MetaObject") })
 			}})
 		var r [][]byte
 		for _, m := range []object.MetaObject{emptyMeta, smallMeta, object.ObjectMetaObject} {
@@ -452,8 +499,11 @@ func buildTargets() []*target {
 		}
 		add(&target{entry: "ReadObjectReference", binary: true, corpus: items("ref", r...),
 			run: func(in []byte) outcome {
-				_, err := object.ReadObjectReference(bytes.NewReader(in))
-				return res(err)
+				r, err := object.ReadObjectReference(bytes.NewReader(in))
+				if err != nil {
+					return res(err)
+				}
+				return used(func() string { return useObjectReference(&r) })
 			}})
 	}
 	// 5. service info
@@ -469,8 +519,11 @@ func buildTargets() []*target {
 	}
 	add(&target{entry: "ReadServiceInfo", binary: true, corpus: items("info", infoEnc...),
 		run: func(in []byte) outcome {
-			_, err := directory.ReadServiceInfo(bytes.NewReader(in))
-			return res(err)
+			i, err := directory.ReadServiceInfo(bytes.NewReader(in))
+			if err != nil {
+				return res(err)
+			}
+			return used(func() string { return useServiceInfo(&i) })
 		}})
 	// 6. capability map
 	caps := []bus.CapabilityMap{
@@ -486,8 +539,11 @@ func buildTargets() []*target {
 	}
 	add(&target{entry: "ReadCapabilityMap", binary: true, corpus: items("cap", capEnc...),
 		run: func(in []byte) outcome {
-			_, err := bus.ReadCapabilityMap(bytes.NewReader(in))
-			return res(err)
+			m, err := bus.ReadCapabilityMap(bytes.NewReader(in))
+			if err != nil {
+				return res(err)
+			}
+			return used(func() string { return useCapabilityMap(m) })
 		}})
 	// 7. reflection decoder
 	for _, rt := range reflectTypes {
@@ -500,7 +556,10 @@ func buildTargets() []*target {
 		add(&target{entry: "reflect-decoder", sub: rt.name, binary: true, corpus: items(rt.name, c...),
 			run: func(in []byte) outcome {
 				p := reflect.New(rt.typ)
-				return res(encoding.NewDecoder(encoding.DefaultCap(), bytes.NewReader(in)).Decode(p.Interface()))
+				if err := encoding.NewDecoder(encoding.DefaultCap(), bytes.NewReader(in)).Decode(p.Interface()); err != nil {
+					return res(err)
+				}
+				return used(func() string { return useReflected(p, "decoded") })
 			}})
 	}
 	// 8. generated argument decoders through Receive
@@ -573,18 +632,21 @@ func buildTargets() []*target {
 	add(&target{entry: "signature.Parse",
 		corpus: items("sig", []byte("i"), []byte("[s]"), []byte("{s(iI)<P,a,b>}"), []byte(signature.MetaObjectSignature)),
 		run: func(in []byte) outcome {
-			_, err := signature.Parse(string(in))
-			return res(err)
-		}})
-	add(&target{entry: "idl.ParsePackage", corpus: items("idl", []byte(sampleIDL)),
-		run: func(in []byte) outcome {
-			_, err := idl.ParsePackage(in)
+			t, err := signature.Parse(string(in))
 			if err != nil {
 				return res(err)
 			}
-			// the public wrapper additionally converts interfaces to meta-objects
-			_, err = idl.ParseIDL(bytes.NewReader(in))
-			return res(err)
+			return used(func() string { return useType(t) })
 		}})
+	add(&target{entry: "idl.ParsePackage", corpus: items("idl", []byte(sampleIDL)),
+		run: func(in []byte) outcome {
+			o := runParsePackage(in)
+			if !o.accepted || o.unusable != "" {
+				return o
+			}
+			// the public wrapper additionally converts interfaces to meta-objects
+			return runParseIDL(in)
+		}})
+	ts = append(ts, recursiveTargets()...)
 	return ts
 }
